@@ -154,6 +154,14 @@ func directed(gin, gout, bufsize, size uint64, n int) input {
 	return in
 }
 
+func directedOverlap(bufsize uint64) input {
+	in := input{Kind: "run", GIn: 16, GOut: 16, BufSize: bufsize, TCap: 2, ICap: 8, OCap: 8,
+		MemIn: pattern(128, 1), MemOut: pattern(128, 101)}
+	in.Script = []Instant{{Top: []Move{{ID: 77, Src: 1, SAddr: 0, DAddr: 16, Size: 64, SSide: 0, DSide: 0}}, DrainTop: 1, DrainIn: 2, DrainOut: 2}}
+	tail(&in, 60)
+	return in
+}
+
 func gen(r *hx.Rand, tier string) []json.RawMessage {
 	nh, nr := 240, 90
 	if tier == "thorough" {
@@ -164,6 +172,8 @@ func gen(r *hx.Rand, tier string) []json.RawMessage {
 		hx.J(directed(64, 256, 512, 100, 60)), // DESIGN §1: never acknowledged
 		hx.J(directed(64, 64, 128, 128, 40)),  // the aligned neighbour of the first one
 		hx.J(directed(16, 64, 32, 128, 80)),   // buffer smaller than the destination granularity
+		hx.J(directedOverlap(16)),             // same side, destination overlapping the source 16 bytes further: smeared
+		hx.J(directedOverlap(64)),             // the same move with a buffer that reads the whole source ahead: exact
 	}
 	for i := 0; i < nh; i++ {
 		out = append(out, hx.J(genHelper(r)))
@@ -218,7 +228,8 @@ func init() {
 			"run cases: the real data mover (granularities 4-32 per side, buffer 1-4 x the larger, port buffers 1-6) gets 1-3 moves " +
 			"(inside->outside, outside->inside, same side with disjoint ranges; sizes 0-4 granules, 1/8 of the cases a size that is not " +
 			"a multiple) while the two 256-byte memories serve the drained reads/writes in scripted random order with random delays " +
-			"and back-pressure, then a long all-serving tail. Directed: 100 B at 64/64, 100 B at 64/256, buffer 32 < granularity 64. " +
+			"and back-pressure, then a long all-serving tail. Directed: 100 B at 64/64, 100 B at 64/256, buffer 32 < granularity 64, a same-side move onto an overlapping range " +
+			"with a one-granule and with a four-granule buffer. " +
 			"Non-trivial: helper with >= 2 chunks and no panic, or a run with an acknowledgment and different granularities. Distinct = input hash.",
 		Gen: gen, Run: run, Shrink: shrink,
 	})
